@@ -18,7 +18,7 @@ open(f"{dst}/demo.py", "w").write(demo)
 if os.path.exists(f"{src}/notes{k}.md"):
     shutil.copy(f"{src}/notes{k}.md", f"{dst}/notes.md")
 files = [l[6:].strip() for l in open(f"{dst}/patch.diff") if l.startswith("+++ b/")]
-meta = {"property": cid, "name": f"{cid}-{slug}", "source": "fresh sub-agent given only the property text and a scratch worktree" + (" (second round: also told which changes the first round had produced, to avoid repeats)" if "seed2" in src else "") + (" (third round: told which changes rounds one and two had produced, and pointed at data types, degenerate sizes, rarely combined options, orderings, inner/outer positions, shared helpers and error paths)" if "seed3" in src else ""),
+meta = {"property": cid, "name": f"{cid}-{slug}", "source": "fresh sub-agent given only the property text and a scratch worktree" + (" (second round: also told which changes the first round had produced, to avoid repeats)" if "seed2" in src else "") + (" (third round: told which changes rounds one and two had produced, and pointed at data types, degenerate sizes, rarely combined options, orderings, inner/outer positions, shared helpers and error paths)" if "seed3" in src else "") + (" (fourth round: told all earlier changes; asked to read the anchored paths end to end for argument combinations, shared helpers, loop- and call-carried state, implicit conversions, xarray interplay)" if "seed4" in src else ""),
         "files_changed": files}
 json.dump(meta, open(f"{dst}/meta.json", "w"), indent=1)
 print(dst, files)
